@@ -167,6 +167,31 @@ def ob_normalisation(chk, ir):
     chk.obligation('normalisation: the backend (and hence the cache key) sees the lower-cased name unless normalisation is disabled', 'login endpoint, form and basic-auth', verdict, witness=f'{n} distinct backend user terms', t=time.time() - t)
 
 
+def ob_constructor(chk, ir):
+    """the authenticator the daemon builds (newAuthenticator from SSA) carries the cache lifetime the property states: 96 hours
+    (the verdict/cache obligation above runs on an authenticator with that lifetime)"""
+    t = time.time(); name = LD + '.newAuthenticator'
+    if name not in ir.funcs: chk.obligation('constructor', '-', 'inconclusive', 'ANCHOR-LOST ' + name); return
+    PT = ir.typeid(LD + '.PasswordAuthenticator'); verdict = 'holds'; n = 0; total = 0
+    for nurl in (1, 2):
+        H = HandlerRun(ir, loop_bound=6, budget_s=60); ex = H.ex; ex.ptr_nilable = False
+        H.stub(KM + '/lib/authutil.ParseLDAPURL', lambda ex_, st, a, ins: fork_results(ex_, st, ins, [(None, lambda s: (NIL, mk_error(s, SV('url'), 'url'))), (None, lambda s: (Ptr(s.alloc(Opaque('ldapurl'))), nilerr()))]))
+        st = State()
+        urls = ex.mkslice(st, [z3.String(f'url{i}') for i in range(nurl)]); pats = ex.mkslice(st, [z3.String('pattern0')])
+        paths = ex.run(name, [urls, pats, z3.BitVec('timeoutSecs', 64), NIL, IfaceV('dyn:store', Opaque('store')), IfaceV('dyn:logger', Opaque('logger'))], st); total += len(paths)
+        for p in paths:
+            if p.status in ('unsupported', 'unwind'): chk.absorb(ex, paths); chk.obligation('constructor', '-', 'inconclusive', str(p.result)); return
+            if p.status != 'returned' or not isinstance(p.result[0], Ptr): continue
+            n += 1
+            d = ex.getfield(p, ex.load(p, p.result[0]), PT, 'expirationDuration')
+            if ex.check(p.pc, d != z3.BitVecVal(H96 * 10**9, 64))[0] != 'unsat':
+                if chk.violation('constructor', 'newAuthenticator/cache-lifetime', f'the LDAP authenticator is built with a cache lifetime other than 96 hours: {term(d, 60)}', None) == 'new': verdict = 'violated'
+        chk.absorb(ex, paths)
+    if n == 0: chk.obligation('constructor', '-', 'inconclusive', 'vacuous'); return
+    chk.witnesses += n
+    chk.obligation('constructor: the authenticator is built with a cache lifetime of 96 hours', '1..2 directory URLs', verdict, paths=total, witness=f'{n} constructed authenticators', t=time.time() - t)
+
+
 def ob_thin_backends(chk, ir):
     """the two wrapper back-ends from SSA: htpassword returns the verdict of the htpasswd verifier for exactly (user, password, file bytes);
     command accepts iff the helper exits 0, rejects on exit status 1, and hands the password to the helper on stdin only"""
@@ -263,6 +288,7 @@ def main(chk):
     chk.bounds = {'servers': [1, 2] if quick else [1, 2, 3], 'bind_patterns': [1, 2]}
     ob_ldap(chk, ir, [1, 2] if quick else [1, 2, 3], [1, 2])
     ob_normalisation(chk, ir)
+    ob_constructor(chk, ir)
     ob_thin_backends(chk, ir)
     # the signed-record consumer (shared with C04): GetSigned honours only a verified, unexpired record of that user
     from checks.c04 import base, sql_model, claims_ok, nowsec_of, decide, mem
